@@ -270,9 +270,15 @@ func (m *Member) createAgent(role, bucket string, maxQueue int, bufSize uint, ti
 
 func (m *Member) createDcpAgent() *gocbcore.DCPAgent {
 	c := m.cfg
+	// go-dcp's DCP agent learns cluster-map changes from the streaming mgmt endpoint (no CCCP poller). The
+	// simulated mgmt endpoint can serve that stream (http.go), but net/http's transport made runs diverge, so the
+	// simulated DCP agent is given the CCCP poller instead: same ConfigSnapshot content for go-dcp's config watch,
+	// delivered by GET_CLUSTER_CONFIG every CccpPoll.
+	seeds := gocbcore.SeedConfig{MemdAddrs: []string{m.tag("d") + ".n0:11210"}}
 	a, err := gocbcore.CreateDcpAgent(&gocbcore.DCPAgentConfig{
 		BucketName:         c.BucketName,
-		SeedConfig:         gocbcore.SeedConfig{MemdAddrs: []string{m.tag("d") + ".n0:11210"}, HTTPAddrs: []string{m.tag("d") + ".n0:8091"}}, // go-dcp seeds its DCP agent with the mgmt addresses: the streaming config poller runs from the start
+		SeedConfig:         seeds,
+		EnableCCCPPoller:   true,
 		SecurityConfig:     m.w.security(),
 		CompressionConfig:  gocbcore.CompressionConfig{Enabled: true},
 		DCPConfig:          gocbcore.DCPConfig{BufferSize: 16 << 20, UseExpiryOpcode: m.w.cfg.versionAtLeast(6, 5, 0)},
